@@ -166,7 +166,25 @@ pub fn run(ctx: &Ctx) -> Report {
       report.hit("reserved-characters");
     }
     let trackers_norm: Vec<String> = c.trackers.iter().map(|t| url::Url::parse(t).map(|u| u.to_string()).unwrap_or_else(|_| t.clone())).collect();
-    let peers_norm: Vec<String> = c.peers.iter().map(|p| imdl::verif::hostport_parse(p).unwrap_or_else(|_| p.clone())).collect();
+    // the normalised text of a peer: worked out here when the host is an address std can read (an IPv6 address stays an
+    // IPv6 address, in the WHATWG spelling; the port in decimal without leading zeros), through the C17 hook otherwise
+    let peers_norm: Vec<String> = c
+      .peers
+      .iter()
+      .map(|p| {
+        if let Some((h, port)) = p.rsplit_once(':') {
+          if let Ok(port) = port.parse::<u16>() {
+            if let Some(Ok(a6)) = h.strip_prefix('[').and_then(|h| h.strip_suffix(']')).map(|h| h.parse::<std::net::Ipv6Addr>()) {
+              return format!("[{}]:{port}", super::c17::canon6(&a6.segments()));
+            }
+            if let Ok(a4) = h.parse::<std::net::Ipv4Addr>() {
+              return format!("{a4}:{port}");
+            }
+          }
+        }
+        imdl::verif::hostport_parse(p).unwrap_or_else(|_| p.clone())
+      })
+      .collect();
     let tr: Vec<&str> = c.trackers.iter().map(|s| s.as_str()).collect();
     let pe: Vec<&str> = c.peers.iter().map(|s| s.as_str()).collect();
     let built = std::panic::catch_unwind(|| imdl::verif::magnet_build(c.infohash, c.name.as_deref(), &tr, &pe, &c.indices));
